@@ -46,6 +46,22 @@ func newCA(label string) *ca {
 	return &ca{label: label, key: k, cert: c, der: der}
 }
 
+// newIntermediate creates a CA certificate issued by parent.
+func newIntermediate(parent *ca, label string) *ca {
+	k := keys.EC(256, "ca:"+label)
+	tmpl := &x509.Certificate{
+		SerialNumber: big.NewInt(int64(len(label)) + 2000), Subject: pkix.Name{CommonName: "verif CA " + label},
+		NotBefore: longBefore, NotAfter: longAfter, IsCA: true, BasicConstraintsValid: true,
+		KeyUsage: x509.KeyUsageCertSign | x509.KeyUsageDigitalSignature,
+	}
+	der, err := x509.CreateCertificate(rand.Reader, tmpl, parent.cert, k.Public(), parent.key)
+	if err != nil {
+		panic(err)
+	}
+	c, _ := x509.ParseCertificate(der)
+	return &ca{label: label, key: k, cert: c, der: der}
+}
+
 func (c *ca) pem() []byte { return pem.EncodeToMemory(&pem.Block{Type: "CERTIFICATE", Bytes: c.der}) }
 
 // issue creates a leaf certificate. issuer nil: self-signed.
@@ -87,5 +103,9 @@ func keyPEM(c tls.Certificate) []byte {
 }
 
 func certPEM(c tls.Certificate) []byte {
-	return pem.EncodeToMemory(&pem.Block{Type: "CERTIFICATE", Bytes: c.Certificate[0]})
+	var out []byte
+	for _, der := range c.Certificate {
+		out = append(out, pem.EncodeToMemory(&pem.Block{Type: "CERTIFICATE", Bytes: der})...)
+	}
+	return out
 }
